@@ -131,6 +131,16 @@ def run(ctx):
         if any(t[1] and 0 < t[2] <= extra for t in cc["table"][1:(1 << nE) - 1]):
             cases.append(dict(cc, name="disconnected")); got += 1
     ctx.count("disconnected_cases", got)
+    # polygons with 6 and 8 edges, pairwise different non-dyadic weights: subsets with three and four components (a table that depends on the
+    # order in which components are found differs between two builds: the determinism pass below builds everything twice)
+    for k in range(2 if ctx.quick else 6):
+        for m in (6, 8):
+            edges = [(i, (i + 1) % m) for i in range(m)]
+            w = [0.31 + 0.1 * i + 0.013 * k + 0.0007 * i * i for i in range(m)]
+            massive = [i % 2 == 0 for i in range(m)]
+            dod, Lf, table = oracle.table_oracle(edges, w, massive, list(range(m)), 3)
+            cases.append(dict(edges=edges, weights=w, massive=massive, ext=list(range(m)), D=3, table=table, dod=dod, loops=Lf,
+                              accepted=not oracle.divergent_subsets(table), name="polygon_many_components"))
     # the same endpoints, weights and externals under another mass pattern (history inside one process)
     for c in list(cases[: (25 if ctx.quick else 200)]):
         c2 = graphs.remass(rng, c)
